@@ -21,6 +21,8 @@ import (
 	"github.com/alicebob/miniredis/v2"
 
 	"tunnox-core/internal/core/idgen"
+	"tunnox-core/internal/core/node"
+	"errors"
 	"tunnox-core/internal/core/storage"
 	"tunnox-core/internal/core/storage/hybrid"
 	"tunnox-core/internal/core/storage/memory"
@@ -231,6 +233,154 @@ func runTTL(c caseIn) *caseOut {
 			_ = ok
 		}
 		out.NodeIDs = append(out.NodeIDs, fmt.Sprintf("%s ttl=%v", f.name, ttl.Round(time.Hour)))
+	}
+	return out
+}
+
+// runNodeSeq: sequences on node-id allocators over one store: allocate, lease lapse (heartbeat context cancelled and
+// the marker expired = deleted), another allocator takes the free slot, the first allocates AGAIN on the same
+// allocator object.  No id may be held by two allocators at once.
+func runNodeSeq(c caseIn) *caseOut {
+	out := &caseOut{PropOK: true, Sched: []int{}, Markers: []int{}, Threads: []thrOut{}}
+	under := memory.New(context.Background())
+	n := c.N
+	if n < 2 {
+		n = 2
+	}
+	type al struct {
+		a      *node.NodeIDAllocator
+		cancel context.CancelFunc
+		id     string // currently held id ("" = none)
+	}
+	als := make([]*al, n)
+	for i := range als {
+		als[i] = &al{a: node.NewNodeIDAllocator(under)}
+	}
+	holder := map[string]int{}
+	for step, op := range c.Sched { // op = 3*i + kind; kind 0 = allocate, 1 = lease lapses, 2 = release
+		i, kind := (op/3)%n, op%3
+		x := als[i]
+		switch kind {
+		case 0:
+			ctx, cancel := context.WithCancel(context.Background())
+			id, err := x.a.AllocateNodeID(ctx)
+			if err != nil {
+				cancel()
+				out.PropOK, out.PropMsg = false, fmt.Sprintf("step %d: allocator %d failed: %v", step, i, err)
+				return out
+			}
+			if x.cancel != nil {
+				x.cancel()
+			}
+			x.cancel = cancel
+			if who, ok := holder[id]; ok && who != i {
+				out.PropOK = false
+				out.PropMsg = fmt.Sprintf("step %d: allocator %d was handed %s which allocator %d still holds (sequence %v)", step, i, id, who, c.Sched[:step+1])
+				return out
+			}
+			if x.id != "" && x.id != id {
+				delete(holder, x.id) // the old lease of this allocator is simply abandoned (it lapsed or will lapse)
+			}
+			x.id = id
+			holder[id] = i
+			out.NodeIDs = append(out.NodeIDs, fmt.Sprintf("%d:%s", i, id))
+		case 1:
+			if x.id == "" {
+				continue
+			}
+			x.cancel() // heartbeat stops
+			_ = under.Delete(node.NodeIDKeyPrefix + x.id) // ... and the 90 s lease expires
+			delete(holder, x.id)
+			x.id = "" // the allocator object itself does not know
+		case 2:
+			if x.id == "" {
+				continue
+			}
+			x.cancel()
+			_ = under.Delete(node.NodeIDKeyPrefix + x.id)
+			delete(holder, x.id)
+			x.id = ""
+		}
+	}
+	for _, x := range als {
+		if x.cancel != nil {
+			x.cancel()
+		}
+	}
+	return out
+}
+
+// faultyShared: a shared cache whose k-th SetNX fails with a transient error
+type faultyShared struct {
+	*memory.Storage
+	failAt, calls int
+}
+
+func (f *faultyShared) SetNX(key string, value any, ttl time.Duration) (bool, error) {
+	f.calls++
+	if f.calls == f.failAt {
+		return false, errors.New("verif: transient shared-cache failure")
+	}
+	return f.Storage.SetNX(key, value, ttl)
+}
+
+// runNodeFault: two nodes with private local caches over ONE shared cache; one shared-cache SetNX fails.
+// The two allocators must still end up with different node ids.
+func runNodeFault(c caseIn) *caseOut {
+	out := &caseOut{PropOK: true, Sched: []int{}, Markers: []int{}, Threads: []thrOut{}}
+	ctx, cancel := context.WithCancel(context.Background())
+	defer cancel()
+	shared := &faultyShared{Storage: memory.New(ctx), failAt: c.N}
+	mk := func() storage.Storage { return hybrid.NewWithSharedCache(ctx, memory.New(ctx), shared, nil, nil) }
+	a, b := node.NewNodeIDAllocator(mk()), node.NewNodeIDAllocator(mk())
+	ida, erra := a.AllocateNodeID(ctx)
+	idb, errb := b.AllocateNodeID(ctx)
+	out.NodeIDs = []string{ida, idb}
+	if erra != nil || errb != nil {
+		out.PropOK, out.PropMsg = false, fmt.Sprintf("allocation failed: %v / %v", erra, errb)
+		return out
+	}
+	if ida == idb {
+		out.PropOK = false
+		out.PropMsg = fmt.Sprintf("two nodes sharing one store were both handed %s (shared-cache SetNX #%d failed transiently)", ida, c.N)
+	}
+	return out
+}
+
+// runBirthday: genuine same-id collisions without any double — two generator instances on one plain memory store
+// draw N client ids each (id space 9e7: N=40000 gives ~35 candidate collisions); every returned id must be unique.
+func runBirthday(c caseIn) *caseOut {
+	out := &caseOut{PropOK: true, Sched: []int{}, Markers: []int{}, Threads: []thrOut{}}
+	ctx, cancel := context.WithCancel(context.Background())
+	defer cancel()
+	under := memory.New(ctx)
+	g1 := idgen.NewStorageIDGenerator[int64](under, "", "tunnox:id:used:client", ctx)
+	g2 := idgen.NewStorageIDGenerator[int64](under, "", "tunnox:id:used:client", ctx)
+	seen := make(map[int64]int, 2*c.N)
+	var wg sync.WaitGroup
+	res := make([][]int64, 2)
+	for gi, g := range []*idgen.StorageIDGenerator[int64]{g1, g2} {
+		wg.Add(1)
+		go func(gi int, g *idgen.StorageIDGenerator[int64]) {
+			defer wg.Done()
+			for i := 0; i < c.N; i++ {
+				id, err := g.Generate()
+				if err == nil {
+					res[gi] = append(res[gi], id)
+				}
+			}
+		}(gi, g)
+	}
+	wg.Wait()
+	for gi := range res {
+		for _, id := range res[gi] {
+			if who, ok := seen[id]; ok {
+				out.PropOK = false
+				out.PropMsg = fmt.Sprintf("client id %d was handed out twice (generators %d and %d) while still live, among %d generations on one store", id, who, gi, 2*c.N)
+				return out
+			}
+			seen[id] = gi
+		}
 	}
 	return out
 }
